@@ -495,3 +495,56 @@ def r_transfer_restart(ctx):
                       'neither the send loop (it no longer visits disconnected nodes to cancel their transfer) nor every disconnect path (%s lacks it) cancels a snapshot '
                       'transfer: after a reconnect the leader resumes mid-stream and the follower installs a dump with a hole' % ', '.join(missing), instance=inst)
     ctx.expect_min(1)
+
+
+@rule('R-transfer-flags', 'the sender of a chunked snapshot marks exactly the first chunk as first (flag computed before the '
+                          'offset advances) and the empty read as last, and forgets the transfer after the last chunk')
+def r_transfer_flags(ctx):
+    P = ctx.P
+    S = serializer_funcs(ctx)
+    g = S.methods['getTransmissionData']
+    ex = U.explorer(ctx, g)
+    cfg = ex.cfg
+    rets = [n for n in cfg.nodes if n.kind == 'stmt' and isinstance(n.ast, ast.Return) and isinstance(n.ast.value, ast.Tuple) and len(n.ast.value.elts) == 3]
+    ctx.require(rets, 'getTransmissionData no longer returns (data, isFirst, isLast)')
+    data_v, first_v, last_v = [unparse(e) for e in rets[0].ast.value.elts]
+    # offset counter: the key advanced by `+= size`
+    adv = [n for n in cfg.nodes if n.kind == 'stmt' and isinstance(n.ast, ast.AugAssign) and isinstance(n.ast.op, ast.Add) and isinstance(n.ast.target, ast.Subscript)]
+    ctx.require(adv, 'transfer offset is never advanced')
+    key = unparse(adv[0].ast.target)
+    firsts = [n for n in cfg.nodes if n.kind == 'stmt' and isinstance(n.ast, ast.Assign) and unparse(n.ast.targets[0]) == first_v]
+    inst = 'first-chunk flag = (offset == 0), computed before the offset advances'
+    ctx.tick()
+    okf = bool(firsts) and all(isinstance(n.ast.value, ast.Compare) and isinstance(n.ast.value.ops[0], ast.Eq) and unparse(n.ast.value.left) == key
+                               and isinstance(n.ast.value.comparators[0], ast.Constant) and n.ast.value.comparators[0].value == 0 for n in firsts)
+    order = okf and all(f.id not in cfg.reachable_from(a.id) for f in firsts for a in adv)
+    if okf and order:
+        ctx.ok(inst, g.loc(firsts[0].ast), '%s = %s == 0 before `%s`' % (first_v, key, unparse(adv[0].ast)))
+    else:
+        ctx.violation('Serializer.getTransmissionData:first-flag', g.loc(firsts[0].ast) if firsts else g.loc(),
+                      'the first-chunk flag is not `%s == 0` evaluated before the offset is advanced: the receiver never sees a first chunk (or sees several) and ignores the transfer'
+                      % key, instance=inst)
+    # the offset advances by the size of the chunk that was read
+    inst = 'offset advances by the length of the chunk'
+    ctx.tick()
+    sz = unparse(adv[0].ast.value)
+    szdef = [n for n in cfg.nodes if n.kind == 'stmt' and isinstance(n.ast, ast.Assign) and unparse(n.ast.targets[0]) == sz]
+    if szdef and unparse(szdef[0].ast.value) == 'len(%s)' % data_v:
+        ctx.ok(inst, g.loc(adv[0].ast), '%s += len(%s)' % (key, data_v))
+    else:
+        ctx.violation('Serializer.getTransmissionData:offset-advance', g.loc(adv[0].ast), 'the transfer offset is advanced by `%s`, not by the length of the chunk just read' % sz, instance=inst)
+    # last flag and forgetting the transfer
+    lasts = [n for n in cfg.nodes if n.kind == 'stmt' and isinstance(n.ast, ast.Assign) and unparse(n.ast.targets[0]) == last_v]
+    inst = 'last-chunk flag = empty read; the transfer is forgotten after it'
+    ctx.tick()
+    okl = bool(lasts) and all(isinstance(n.ast.value, ast.Compare) and isinstance(n.ast.value.ops[0], ast.Eq) and isinstance(n.ast.value.comparators[0], ast.Constant)
+                              and n.ast.value.comparators[0].value == 0 and unparse(n.ast.value.left) in (sz, 'len(%s)' % data_v) for n in lasts)
+    res = U.full_run(ctx, g)
+    pops = [n for n in cfg.nodes if n.kind == 'stmt' and n.ast is not None and any(isinstance(c, ast.Call) and isinstance(c.func, ast.Attribute) and c.func.attr == 'pop' for c in ast.walk(n.ast))]
+    popped_on_last = any(all(any(l[0] == 'truthy' and l[2] and l[1].key == last_v for l in fs) for fs in res.facts_at(n.id)) and res.facts_at(n.id) for n in pops)
+    if okl and popped_on_last:
+        ctx.ok(inst, g.loc(lasts[0].ast), '')
+    else:
+        ctx.violation('Serializer.getTransmissionData:last-flag', g.loc(lasts[0].ast) if lasts else g.loc(),
+                      'the last-chunk flag is not "the read returned nothing" / the finished transfer is not forgotten: the leader re-sends or never finishes the snapshot', instance=inst)
+    ctx.expect_min(3)
